@@ -24,6 +24,7 @@ import (
 	"runtime/debug"
 	"sort"
 	"strconv"
+	"time"
 	"strings"
 	"sync"
 	"testing"
@@ -425,6 +426,21 @@ func vfBubble(t *testing.T, f func()) (panicMsg string) {
 		}
 	}()
 	var inner string
+	// real-time watchdog, outside the bubble: a bubble whose clock cannot advance (a goroutine waiting for a
+	// sync.Mutex is not durably blocked) would otherwise burn the whole shard budget. Budget hit = inconclusive.
+	stall := time.AfterFunc(time.Duration(vfStallSeconds())*time.Second, func() {
+		buf := make([]byte, 4<<20)
+		k := runtime.Stack(buf, true)
+		var nd []string
+		for _, g := range strings.Split(string(buf[:k]), "\n\n") {
+			if strings.Contains(g, "synctest bubble") && !strings.Contains(strings.SplitN(g, "\n", 2)[0], "durable") {
+				nd = append(nd, g)
+			}
+		}
+		fmt.Fprintf(os.Stderr, "VF-STALL: the bubble made no progress in real time; goroutines not durably blocked:\n%s\n", strings.Join(nd, "\n\n"))
+		os.Exit(4)
+	})
+	defer stall.Stop()
 	synctest.Test(t, func(*testing.T) {
 		defer func() {
 			if r := recover(); r != nil {
@@ -436,12 +452,35 @@ func vfBubble(t *testing.T, f func()) (panicMsg string) {
 	return inner
 }
 
+func vfStallSeconds() int {
+	if v, err := strconv.Atoi(os.Getenv("VF_STALL")); err == nil && v > 0 {
+		return v
+	}
+	return 240
+}
+
 // vfBubbleStacks keeps the goroutines of a bubble that are still blocked (first lines of each), so a report
 // names the library code that did not terminate.
 func vfBubbleStacks(dump string) string {
 	var out []string
+	// goroutines leaked by earlier cases sit in older bubbles: keep the newest bubble only
+	newest := 0
+	bubbleOf := func(g string) int {
+		head := strings.SplitN(g, "\n", 2)[0]
+		i := strings.Index(head, "synctest bubble ")
+		if i < 0 {
+			return -1
+		}
+		n, _ := strconv.Atoi(strings.TrimRight(strings.TrimSpace(head[i+len("synctest bubble "):]), "]:"))
+		return n
+	}
 	for _, g := range strings.Split(dump, "\n\n") {
-		if !strings.Contains(g, "synctest bubble") || strings.Contains(g, "vfBubble") {
+		if b := bubbleOf(g); b > newest {
+			newest = b
+		}
+	}
+	for _, g := range strings.Split(dump, "\n\n") {
+		if bubbleOf(g) != newest || strings.Contains(g, "vfBubble") {
 			continue
 		}
 		lines := strings.Split(g, "\n")
